@@ -50,6 +50,31 @@ func (j *judge) judgeTwin() {
 // judgeSame: byte-identical sinks (C14) and identical reader observations
 // under different fragmentation (C15).
 func (j *judge) judgeSame() {
+	// The judged stream of a writer client is its last one (what follows its
+	// last Reset; everything before is history of the object). Two clients are
+	// compared only if they were offered the same bytes under the same
+	// settings (a minimised plan may have shortened one of them).
+	stream := func(wi int) (acc []byte, sink int) {
+		ws, wo := j.p.Writers[wi], j.out.W[wi]
+		for opi := range wo.Ops {
+			if opi >= len(ws.Ops) {
+				break
+			}
+			if op := ws.Ops[opi]; op.Op == "reset" || op.Op == "renew" {
+				acc, sink = nil, op.Sink
+				continue
+			}
+			if opi < len(wo.Accepted) {
+				acc = append(acc, wo.Accepted[opi]...)
+			}
+		}
+		return
+	}
+	settings := func(wi int) plan.WOpts {
+		o := j.p.Writers[wi].Opts
+		o.Conc, o.HYield = 0, 0
+		return o
+	}
 	for _, grp := range j.p.Same {
 		if len(grp) < 2 {
 			continue
@@ -58,15 +83,24 @@ func (j *judge) judgeSame() {
 		if !a.Finished || len(a.Sinks) == 0 {
 			continue
 		}
+		accA, sa := stream(grp[0])
 		for _, bi := range grp[1:] {
 			b := j.out.W[bi]
 			if !b.Finished || len(b.Sinks) == 0 {
 				continue
 			}
-			if !bytes.Equal(a.Sinks[0].Buf, b.Sinks[0].Buf) {
+			accB, sb := stream(bi)
+			if sa >= len(a.Sinks) || sb >= len(b.Sinks) || settings(grp[0]) != settings(bi) || !bytes.Equal(accA, accB) {
+				j.out.Probes.Add("same.not.comparable", 1)
+				continue
+			}
+			if sb > 0 {
+				j.out.Probes.Add("same.after.history", 1)
+			}
+			if !bytes.Equal(a.Sinks[sa].Buf, b.Sinks[sb].Buf) {
 				j.add("output-differs", fmt.Sprintf("conc%d-vs-conc%d", concKey(j.p.Writers[grp[0]].Opts.Conc), concKey(j.p.Writers[bi].Opts.Conc)),
-					"W%d (%d bytes) and W%d (%d bytes) compressed the same input with the same settings into different bytes: %s",
-					grp[0], len(a.Sinks[0].Buf), bi, len(b.Sinks[0].Buf), diffAt(a.Sinks[0].Buf, b.Sinks[0].Buf))
+					"W%d (%d bytes) and W%d (%d bytes, sink %d) compressed the same input with the same settings into different bytes: %s",
+					grp[0], len(a.Sinks[sa].Buf), bi, len(b.Sinks[sb].Buf), sb, diffAt(a.Sinks[sa].Buf, b.Sinks[sb].Buf))
 			}
 		}
 	}
